@@ -1,4 +1,5 @@
 import StepModel.GenPy
+import StepModel.GenPyPass
 /-!
 # C18 — exp2python emits a module that mirrors the schema
 
@@ -246,5 +247,159 @@ theorem C18_escaping_injective (a b : String) (h : pyName a = pyName b) :
 /-- hypotheses are satisfiable -/
 example : bases shallowDeep ⟨"c", ["q", "p"], []⟩ = ["q", "p"] :=
   C18_bases_decl_order_partial _ _ (by decide)
+
+/-! ## ENTITYhas_ancestor decides the supertype relation -/
+
+/-- `anc` is a direct or indirect supertype of `n` -/
+inductive Anc (es : List Entity) : String → String → Prop
+  | direct {anc n : String} {e : Entity} : find es n = some e → anc ∈ e.supers → Anc es anc n
+  | step {anc p n : String} {e : Entity} : find es n = some e → p ∈ e.supers → Anc es anc p → Anc es anc n
+
+theorem isAncestor_sound (es : List Entity) : ∀ (f : Nat) (anc n : String), isAncestor es f anc n = true → Anc es anc n
+  | 0, _, _, h => by simp [isAncestor] at h
+  | f + 1, anc, n, h => by
+    simp only [isAncestor] at h
+    cases hf : find es n with
+    | none => simp [hf] at h
+    | some e =>
+      simp only [hf, List.any_eq_true, Bool.or_eq_true, beq_iff_eq] at h
+      obtain ⟨p, hp, hpa⟩ := h
+      rcases hpa with rfl | hrec
+      · exact Anc.direct hf hp
+      · exact Anc.step hf hp (isAncestor_sound es f anc p hrec)
+
+theorem isAncestor_mono (es : List Entity) : ∀ (f : Nat) (anc n : String),
+    isAncestor es f anc n = true → isAncestor es (f + 1) anc n = true
+  | 0, _, _, h => by simp [isAncestor] at h
+  | f + 1, anc, n, h => by
+    simp only [isAncestor] at h ⊢
+    cases hf : find es n with
+    | none => simp [hf] at h
+    | some e =>
+      simp only [hf, List.any_eq_true, Bool.or_eq_true, beq_iff_eq] at h ⊢
+      obtain ⟨p, hp, hpa⟩ := h
+      refine ⟨p, hp, ?_⟩
+      rcases hpa with rfl | hrec
+      · exact Or.inl rfl
+      · exact Or.inr (isAncestor_mono es f anc p hrec)
+
+theorem isAncestor_complete (es : List Entity) (anc n : String) (h : Anc es anc n) :
+    ∃ f, isAncestor es f anc n = true := by
+  induction h with
+  | direct hf hm =>
+    refine ⟨1, ?_⟩
+    simp only [isAncestor, hf, List.any_eq_true, Bool.or_eq_true, beq_iff_eq]
+    exact ⟨_, hm, Or.inl rfl⟩
+  | step hf hm _ ih =>
+    obtain ⟨f, hfa⟩ := ih
+    refine ⟨f + 1, ?_⟩
+    simp only [isAncestor, hf, List.any_eq_true, Bool.or_eq_true, beq_iff_eq]
+    exact ⟨_, hm, Or.inr hfa⟩
+
+/-- `ENTITYhas_ancestor` (recursion over *every* supertype) decides the transitive supertype relation: it answers true
+with enough recursion depth exactly for the direct and indirect supertypes, and more depth never changes a true answer. -/
+theorem C18_has_ancestor_decides (es : List Entity) (anc n : String) :
+    (∃ f, isAncestor es f anc n = true) ↔ Anc es anc n :=
+  ⟨fun ⟨f, h⟩ => isAncestor_sound es f anc n h, isAncestor_complete es anc n⟩
+
+/-- the seeded shape: `item` is found as an ancestor of `managed_part`'s other supertype although the path runs through
+the FIRST supertype of `tracked_part` -/
+example : isAncestor
+    [⟨"item", [], []⟩, ⟨"part", ["item"], []⟩, ⟨"audited", [], []⟩, ⟨"tracked_part", ["part", "audited"], []⟩] 4
+    "item" "tracked_part" = true := by decide
+
+/-! ## one pass, one module -/
+namespace Pass
+
+def NoCant (m : Marks) : Prop := ∀ k, m k ≠ .cantprocess
+
+theorem noCant_set (m : Marks) (n : String) (v : Mark) (h : NoCant m) (hv : v ≠ .cantprocess) : NoCant (setMark m n v) := by
+  intro k; unfold setMark; split
+  · exact hv
+  · exact h k
+
+theorem enumCan_of_noCant (os : List Obj) (m : Marks) (e : String) (h : NoCant m) :
+    enumCanBeProcessed os m e = true := by
+  unfold enumCanBeProcessed
+  cases hm : m e with
+  | notknown =>
+    simp only
+    cases (lookup os e).bind (·.renameOf) with
+    | none => rfl
+    | some a => simp [enumRenameInSchemaOk]
+  | canprocess => rfl
+  | processed => rfl
+  | cantprocess => exact absurd hm (h e)
+
+def Good (s : St) : Prop := NoCant s.marks ∧ s.schemaUnprocessed = false
+
+theorem checkItem_good (os : List Obj) (s : St) (parent item : String) (noSel : Bool) (h : Good s) :
+    Good (checkItem os s parent item noSel).1 ∧ (checkItem os s parent item noSel).2 = false := by
+  unfold checkItem
+  cases lookup os item with
+  | none => exact ⟨h, rfl⟩
+  | some o =>
+    simp only
+    by_cases he : o.isEnum = true
+    · simp only [he, if_true, enumCan_of_noCant os s.marks item h.1, Bool.not_true, Bool.false_eq_true, if_false]
+      exact ⟨h, trivial⟩
+    · simp only [he, Bool.false_eq_true, if_false]
+      by_cases hs : (o.isSelect && !noSel) = true
+      · simp only [hs, if_true]
+        cases hm : s.marks item with
+        | cantprocess => exact absurd hm (h.1 item)
+        | notknown => exact ⟨⟨noCant_set _ _ _ h.1 (by decide), h.2⟩, rfl⟩
+        | canprocess => exact ⟨h, rfl⟩
+        | processed => exact ⟨h, rfl⟩
+      · simp only [hs, Bool.false_eq_true, if_false]
+        exact ⟨h, trivial⟩
+
+theorem checkItems_good (os : List Obj) (parent : String) (noSel : Bool) (items : List String) (s : St) (h : Good s) :
+    Good (checkItems os parent noSel s items).1 ∧ (checkItems os parent noSel s items).2 = false := by
+  induction items generalizing s with
+  | nil => exact ⟨h, rfl⟩
+  | cons i is ih =>
+    have hc := checkItem_good os s parent i noSel h
+    simp only [checkItems]
+    rw [show (checkItem os s parent i noSel) = ((checkItem os s parent i noSel).1, (checkItem os s parent i noSel).2) from rfl]
+    simp only [hc.2, Bool.false_eq_true, if_false]
+    exact ih _ hc.1
+
+theorem visit_good (os : List Obj) (s : St) (o : Obj) (h : Good s) : Good (visit os s o) := by
+  unfold visit
+  split
+  · exact h
+  · have h1 : Good { s with marks := setMark s.marks o.name .canprocess } :=
+      ⟨noCant_set _ _ _ h.1 (by decide), h.2⟩
+    have h2 := checkItems_good os o.name false o.items _ h1
+    simp only
+    rw [show (checkItems os o.name false { s with marks := setMark s.marks o.name .canprocess } o.items) =
+      ((checkItems os o.name false { s with marks := setMark s.marks o.name .canprocess } o.items).1,
+       (checkItems os o.name false { s with marks := setMark s.marks o.name .canprocess } o.items).2) from rfl]
+    simp only [h2.2, Bool.false_eq_true, if_false]
+    exact (checkItems_good os o.name true o.entAttrTypes _ h2.1).1
+
+theorem sweep_good (os order : List Obj) (s : St) (h : Good s) : Good (sweep os order s) := by
+  unfold sweep
+  induction order generalizing s with
+  | nil => exact h
+  | cons o rest ih => exact ih _ (visit_good os s o h)
+
+theorem sweeps_good (os order : List Obj) (n : Nat) (s : St) (h : Good s) : Good (sweeps os order n s) := by
+  induction n generalizing s with
+  | zero => exact h
+  | succ n ih => exact ih _ (sweep_good os order s h)
+
+end Pass
+
+/-- Every single-schema input is processed in one pass and written as exactly one module named after the schema: for
+every set of types and entities, every symbol-table iteration order and any number of sweeps of `checkTypes`/`checkEnts`,
+nothing is marked CANTPROCESS and the schema is not set back to UNPROCESSED.  Depends on the regenerated last case of
+`ENUMcanBeProcessed` (`enumRenameInSchemaOk`). -/
+theorem C18_single_schema_one_module (name : String) (os order : List Pass.Obj) (n : Nat) :
+    Pass.filesOf name (Pass.sweeps os order n Pass.initial) = [name ++ ".py"] := by
+  have h : Pass.Good Pass.initial := ⟨fun k => by simp [Pass.initial], rfl⟩
+  have := (Pass.sweeps_good os order n _ h).2
+  simp [Pass.filesOf, this]
 
 end StepModel.GenPy
